@@ -316,6 +316,12 @@ class C03(Check):
         z = rng.uniform(edges[0] - 0.1, edges[-1] + 0.1, n)
         z[rng.choice(n, max(1, n // 8), replace=False)] = rng.choice(edges, max(1, n // 8))
         w = rng.uniform(0.2, 3, n) if rng.random() < 0.5 else None
+        if w is not None and rng.random() < 0.4:
+            # huge dynamic range: a few objects outweigh the rest by many orders of magnitude, so that a sample
+            # formed as "total minus patch k" loses the contribution of the light patches
+            heavy = rng.choice(n, int(rng.integers(1, 3)), replace=False)
+            w[heavy] *= 10.0 ** rng.integers(12, 17)
+            z[heavy] = rng.uniform(edges[0], edges[-1], len(heavy))
         cfg = Configuration.create(rmin=1, rmax=2, edges=edges.tolist(), closed=closed)
         with Scratch("c03h") as tmp:
             cat = cats.create(tmp / "c", cats.table(ra, dec, w=w, z=z, patch=pid))
@@ -335,7 +341,15 @@ class C03(Check):
             # tolerate a different closed-side convention here (C10 judges it): compare through the
             # code's own total: data - samples[k] must be patch k's contribution
             contrib = h.data - h.samples[k]
-            if not close_abs(contrib, per_patch[k], np.abs(want_tot) + 1.0, rel=1e-12):
+            loose_ok = close_abs(contrib, per_patch[k], np.abs(want_tot) + 1.0, rel=1e-12)
+            # the sample itself against the recount without patch k, to the rounding of a sum over the
+            # REMAINING patches (what "recomputed with patch k removed" can differ by)
+            remaining = np.abs(np.delete(per_patch, k, axis=0)).sum(axis=0)
+            if loose_ok and not close_abs(h.samples[k], want, remaining, rel=1e-12):
+                bad("hist:sample-differs-from-recount-beyond-rounding", dict(k=k, got=h.samples[k].tolist(), want=want.tolist(),
+                                                                             removed=per_patch[k].tolist()))
+                break
+            if not loose_ok:
                 # fall back: maybe only edge-valued objects differ (C10) -> recount with the other rule
                 alt = {"left": "right", "right": "left"}[closed]
                 alt_members = bin_members(rec["z"], edges, alt)
